@@ -431,6 +431,8 @@ func (seq Sequence) Truncate(width int, resolution time.Duration, asOf time.Time
 			if bytesToRemove+Width64bits >= len(seq) {
 				return nil
 			}
+			// copy first: SetUntil below must not write into the caller's sequence
+			result = append(Sequence(nil), result...)
 			result = result[bytesToRemove:]
 			result.SetUntil(until)
 		}
